@@ -198,7 +198,7 @@ func (e *hpEndpoint) wait() {
 	// a stall lasts until the probe has returned; the cap turns a probe without any timeout into a late return
 	select {
 	case <-e.done:
-	case <-time.After(4*e.timeout + 1500*time.Millisecond):
+	case <-time.After(2*e.timeout + 1500*time.Millisecond):
 	}
 }
 
@@ -222,13 +222,13 @@ func (e *hpEndpoint) handle(raw net.Conn) {
 	var c net.Conn = raw
 	if e.tls {
 		tc := tls.Server(raw, &tls.Config{Certificates: []tls.Certificate{hpCert}})
-		raw.SetDeadline(time.Now().Add(4*e.timeout + 2*time.Second))
+		raw.SetDeadline(time.Now().Add(2*e.timeout + 2*time.Second))
 		if err := tc.Handshake(); err != nil {
 			return
 		}
 		c = tc
 	}
-	raw.SetDeadline(time.Now().Add(4*e.timeout + 2*time.Second))
+	raw.SetDeadline(time.Now().Add(2*e.timeout + 2*time.Second))
 	req, err := http.ReadRequest(bufio.NewReader(c))
 	if err != nil {
 		return
@@ -350,7 +350,7 @@ func (e *hpEndpoint) handle(raw net.Conn) {
 		if hop.body.variant%2 == 1 {
 			filler = strings.Repeat(" ", 8192)
 		}
-		cap := time.After(4*e.timeout + 1500*time.Millisecond)
+		cap := time.After(2*e.timeout + 1500*time.Millisecond)
 		for {
 			if write(filler) != nil {
 				return
@@ -397,14 +397,90 @@ func hpRole(kind, path string) (string, bool) {
 	return "", false
 }
 
+// scheduling watchdog: a goroutine that sleeps 5 ms at a time and records every wake-up that came more than
+// 60 ms late.  A case that overlaps such a gap ran while the process (or the machine) was not scheduling
+// goroutines in time; it is run again.  The criterion does not look at the outcome of the case.
+var hpWatch struct {
+	once sync.Once
+	mu   sync.Mutex
+	gaps [][2]time.Time
+}
+
+func hpWatchdog() {
+	hpWatch.once.Do(func() {
+		go func() {
+			last := time.Now()
+			for {
+				time.Sleep(5 * time.Millisecond)
+				now := time.Now()
+				if now.Sub(last) > 55*time.Millisecond {
+					hpWatch.mu.Lock()
+					hpWatch.gaps = append(hpWatch.gaps, [2]time.Time{last, now})
+					hpWatch.mu.Unlock()
+				}
+				last = now
+			}
+		}()
+	})
+}
+
+func hpGapDuring(t0, t1 time.Time) bool {
+	hpWatch.mu.Lock()
+	defer hpWatch.mu.Unlock()
+	for _, g := range hpWatch.gaps {
+		if g[0].Before(t1) && g[1].After(t0) {
+			return true
+		}
+	}
+	return false
+}
+
+// cases run under the read lock; a duration over the property's bound is measured again with the write lock
+// held (nothing else running), at most twice, and at most hpMaxRemeasure times per run: a deterministic
+// overrun (no deadline, a longer deadline) persists and is reported, one caused by a busy machine does not
+var hpExclusive sync.RWMutex
+var hpRemeasured int32
+
+const hpMaxRemeasure = 24
+
+func hpElapsed(out string) int {
+	i := strings.LastIndex(out, ";ms=")
+	if i < 0 {
+		return 0
+	}
+	ms, _ := strconv.Atoi(out[i+4:])
+	return ms
+}
+
 func runHTTPProbe(kind, scheme, ip string, timeoutMs int, script string) string {
+	hpWatchdog()
 	var out string
-	for attempt := 0; attempt < 4; attempt++ {
+	hpExclusive.RLock()
+	for attempt := 0; attempt < 5; attempt++ {
 		var disturbed bool
+		t0 := time.Now()
 		out, disturbed = runHTTPProbeOnce(kind, scheme, ip, timeoutMs, script)
-		if !disturbed {
+		time.Sleep(6 * time.Millisecond) // let the watchdog see a gap that is just ending
+		if !disturbed && !hpGapDuring(t0, time.Now()) {
 			break
 		}
+		time.Sleep(time.Duration(50*(attempt+1)) * time.Millisecond)
+	}
+	hpExclusive.RUnlock()
+	limit := timeoutMs + 150 // docker: one deadline per probe
+	if kind == "elastic" {
+		limit = 2*timeoutMs + 150
+		if strings.HasPrefix(out, "err") {
+			limit = timeoutMs + 150 // only the first request was made
+		}
+	}
+	for k := 0; k < 2 && hpElapsed(out) > limit; k++ {
+		if atomic.AddInt32(&hpRemeasured, 1) > hpMaxRemeasure {
+			break
+		}
+		hpExclusive.Lock()
+		out, _ = runHTTPProbeOnce(kind, scheme, ip, timeoutMs, script)
+		hpExclusive.Unlock()
 	}
 	return out
 }
@@ -606,7 +682,7 @@ type hpJob struct {
 
 func httpProbeComponent(r *hx.Run) {
 	r.Rule = "case = (scanner elastic|docker, scheme http|https, loopback address, timeout, per-request endpoint script); scripts = exhaustive product body class (12) x stream ending (eof|stall|endless) x scheme for the primary request at status 200, x 12 status codes for the eof ending, connection-level failures (refused, protocol mismatch, close, RST, non-HTTP bytes, stalled / partial headers), every secondary-request behaviour against a reporting primary, delayed answers (60% of the timeout, once and twice: per-request vs per-probe budget), redirects to a second endpoint (1-3 hops, scheme change), plus random combinations; real Scanner.Scan in-process, duration measured; non-trivial class = (scanner, scheme, primary hop class, secondary hop class)"
-	T, Tdelay := 400, 600
+	T, Tdelay := 1000, 1500
 	idc := 10
 	nextID := func() int { idc++; return idc }
 	var jobs []hpJob
@@ -787,6 +863,18 @@ func httpProbeComponent(r *hx.Run) {
 		}
 	}
 
+	// warm-up (lazy initialisation in net/http, crypto/tls, the moby client): results discarded
+	hpWatchdog()
+	for _, k := range []string{"elastic", "docker"} {
+		for _, sch := range []string{"http", "https"} {
+			ok := "resp:200:0:objectWs:1:eof:0:0"
+			script := ok + "|" + ok
+			if k == "docker" {
+				script = "resp:200:0:empty:1:eof:0:0|" + script
+			}
+			runHTTPProbeOnce(k, sch, "127.0.0.1", 2000, script)
+		}
+	}
 	// run: cases without a timed answer 32 at a time (stalls sleep, they do not burn CPU), then the cases
 	// with delayed answers 8 at a time (their outcome depends on a 40% margin of the timeout)
 	outs := make([]string, len(jobs))
